@@ -1,7 +1,7 @@
 SPECIFICATION Spec
 CONSTANTS
-  Values = {1, 2, 3, 4}
+  Values = {1, 2, 3, 4, 5}
   Gaps = {1, 2}
-  MaxLen = 6
+  MaxLen = 5
 INVARIANTS TypeOK RunIsRef PeakToTrough Recovery OnePerPeak NoneIffMonotone MaxIsLargest ClassicMDD
 CHECK_DEADLOCK FALSE
